@@ -165,11 +165,17 @@ def run_history(acc: Acc, r: random.Random, workdir: str, hid: int, n_ops: int) 
 	def loaded_now() -> list[str]:
 		return [m.path for m in s.modules.loaded() if m.path in mods or m.path == '__main__']
 
-	for step in range(n_ops):
+	# scripted opening of every history: text that needs an include request, a submission refused while text is being emitted, then
+	# modules that need no include - whatever the first two left behind must not show in the others
+	forced = [('transpile', hp.names['r']), ('submit-bad', '__main__'), ('submit', '__main__'), ('transpile', hp.names['l']), ('transpile', hp.names['u'])]
+	for step in range(n_ops + len(forced)):
 		x = r.random()
 		before = None
 		target: str
-		if x < 0.3:
+		if step < len(forced):
+			op, target = forced[step]
+			x = 2.0
+		elif x < 0.3:
 			target = r.choice(mods)
 			op = 'transpile'
 		elif x < 0.4:
@@ -185,7 +191,7 @@ def run_history(acc: Acc, r: random.Random, workdir: str, hid: int, n_ops: int) 
 			target, op = '__main__', 'submit-bad'
 		elif x < 0.9:
 			target, op = LIB, 'transpile'
-		else:
+		elif x < 1.0:
 			target, op = r.choice(mods), 'type-queries'
 		log.append([op, target])
 		touched = {target}
@@ -240,7 +246,7 @@ def run_history(acc: Acc, r: random.Random, workdir: str, hid: int, n_ops: int) 
 					return
 			elif op == 'submit-bad':
 				try:
-					s.reload('__main__', r.choice(MAIN_BAD) + '\n')
+					s.reload('__main__', (MAIN_BAD[4 + step % 3] if step < len(forced) else r.choice(MAIN_BAD)) + '\n')
 					s.transpile('__main__')
 				except Errors.Error:
 					acc.see('failed_submission', 'app-error')
